@@ -617,7 +617,8 @@ def check_C17(ctx):
     for _ in range(ctx.scale(700, 7000)):
         def node(name, dep):
             decls = []
-            onames = rng.sample(["a", "b all", "force f", "verbose", "o", "n num", "out", "long-name x", "p path"], rng.randint(0, 4))
+            onames = rng.sample(["a", "b all", "force f", "verbose", "o", "n num", "out", "long-name x", "p path",
+                                 "q s", "t T tee", "u uu U", "w W"], rng.randint(0, 4))
             used = set()
             for nm in onames:
                 if any(x in used for x in nm.split()):
@@ -815,6 +816,42 @@ def check_C20(ctx):
         d = diff_obs(a, b, ["outcome", "trace", "values"])
         if d:
             ctx.mismatch("Impl and model differ on %s" % ",".join(d), case=c, impl={k: a[k] for k in d}, model={k: b[k] for k in d})
+    # (1b) the same application run twice on the same command line: the second run gives what the first gave
+    rerun = []
+    for c in base:
+        if c["root"]["subs"] or c.get("env"):
+            continue
+        c2 = copy.deepcopy(c)
+        c2["repeat"] = 2
+        rerun.append(c2)
+    for _ in range(ctx.scale(150, 1500)):
+        # commands without options rely on the synthesised spec; sub-commands without declarations and help
+        decls = [gen.mkarg("strings", n) for n in rng.sample(["SRC", "DST", "X"], rng.randint(1, 3))]
+        subs = [gen.mkcmd(n, hidden=rng.random() < 0.4, desc="d " + n.split()[0]) for n in rng.sample(gen.ALIAS_POOL, rng.randint(0, 3))]
+        root = gen.mkcmd("app", decls=decls if not subs else [], subs=subs, policy=0)
+        argv = rng.choice([["--help"], ["a", "b"], ["a"], [], ["x", "y", "z"]])
+        rerun.append({"op": "run", "env": {}, "version": None, "root": root, "argv": argv, "repeat": 2})
+    number(rerun, start=len(base))
+    once = copy.deepcopy(rerun)
+    for c in once:
+        c["repeat"] = 1
+    r2 = core.run_impl(rerun)
+    r1 = core.run_impl(once)
+    for c in rerun:
+        ctx.count(c)
+        a2, a1 = core.obs_impl(r2[c["id"]]), core.obs_impl(r1[c["id"]])
+        # an instrumented value logs the calls of both runs: keep what follows its last Clear
+        customs = {"app|" + d["name"] for d in c["root"]["decls"] if d["kind"] == "custom"}
+        for o in (a1, a2):
+            for k in customs:
+                v = o["values"].get(k)
+                if v and "C" in v:
+                    o["values"][k] = v[len(v) - v[::-1].index("C"):]
+        d = diff_obs(a1, a2, ["outcome", "trace", "values", "stderr"])
+        if d:
+            ctx.violation("rerun", "spec %r argv %r: the second run of the same application differs from the first on %s: %r vs %r"
+                          % (c["root"]["spec"], c["argv"], d, {x: a1[x] for x in d}, {x: a2[x] for x in d}), case=c)
+    ctx.stream("same application run twice", len(rerun))
     # (2) concurrent under the race detector
     binary = os.path.join(core.HARNESS, "harness_race")
     groups = [base[i:i + 12] for i in range(0, len(base), 12)]
